@@ -202,6 +202,8 @@ func decodeTextUnmarshaler(buf []byte, cursor, depth int64, unmarshaler encoding
 	if s, ok := unquoteBytes(src); ok {
 		src = s
 	}
+	// the text is a window of the input copy: an UnmarshalText that appends to it must not reach the bytes behind it
+	src = src[:len(src):len(src)]
 	if err := unmarshaler.UnmarshalText(src); err != nil {
 		return 0, err
 	}
